@@ -28,6 +28,7 @@ EXPLANATION = (
 EXPLANATION += ' Added after the seeded-change rounds: ' + "D2 also: an external thread searches for a slot only below the arena's concurrency (violated on the pinned tree for task_arena(1): known finding); D5 also: after a global_control is destroyed the first element of the ascending control list becomes active; D7: what a scope object's constructor always saves from outside state is used by its destructor on every path."
 EXPLANATION += ' Added in the third session (round-3 seeds and the findings they led to): ' + 'D5 also: every successful test_and_set / try_clear_if of my_pool_state / my_mandatory_concurrency is reported to the threading control on every path (path-sensitive in the result flags).'
 EXPLANATION += ' Added in the fifth seeding round: ' + 'D4 also: the execution data carries the isolation tag of the task about to run - a task taken out of a container (slot deque, victim slot, mailbox proxy, stream) is executed, spawned again or handed to the caller of receive_or_steal_task only after task_accessor::isolation(*t) was stored into ed.isolation for it; tracked per path and per task-pointer variable, retrieval helpers summarised from their bodies (result stale / fine / parameter i, parameter i is re-spawned).'
+EXPLANATION += ' Added in the sixth (partial) seeding round: ' + 'D1 also (shared with C02-D2 / C01-D9): a caller of task_arena::execute that waits for a slot of a full arena re-evaluates every condition that can end its wait between prepare_wait and commit_wait.'
 ASSUMPTIONS = ['Linux build configuration', 'spin_mutex / rw_mutex scoped lock model']
 ND = ['allotment arithmetic (sum = min(demand, limit), priorities)', 'the L-1 worker bound', 'instantaneous concurrency <= max_concurrency']
 LOCKCLS = lambda c: c.endswith('scoped_lock') or c in ('std::lock_guard',)   # noqa: E731
@@ -42,6 +43,9 @@ def run(facts, rep):
     d6_join(facts, rep)
     d7_scope_symmetry(facts, rep)
     d4_isolation_tag_follows_the_task(facts, rep)
+    # task_arena::execute on a full arena: the caller waits for a slot - the wait re-checks between prepare_wait and commit_wait (shared: C02-D2)
+    from rules.C02 import d2_recheck_between_prepare_and_commit
+    d2_recheck_between_prepare_and_commit(facts, rep, clause='D1')
 
 
 def ops_on(fn, member, kinds=None):
